@@ -201,7 +201,16 @@ func HarnessC02Chain() {
 	data := map[string]any{"a": a, "b": b, "zero": 0, "one": 1}
 	var src, want string
 	fails := false
-	switch vChoice("shape", 10) {
+	switch vChoice("shape", 13) {
+	case 10: // an object literal with a failing entry as a condition
+		src = "@if(a)x@elseif({k: one, j: nope})y@else z@end"
+		want, fails = "x", !a
+	case 11:
+		src = "{{ {nope} ? \"T\" : \"F\" }}"
+		fails = true
+	case 12:
+		src = "@each(v in [1, 2]){{ v }}@continueIf({k: 1 / zero})@end"
+		fails = true
 	case 6: // a branch body that starts with a letter the longer keyword starts with
 		src = "@if(a)valid@elseinvalid@end"
 		want = map[bool]string{true: "valid", false: "invalid"}[a]
